@@ -67,7 +67,7 @@ int e1_explore(e1_spec_t *s) {
 	e1_item_t *inflight = calloc((size_t) run_parallel(), sizeof *inflight); char *used = calloc((size_t) run_parallel(), 1);
 	uint8_t *job = malloc(s->nparam + 1024);
 	int stop_expanding = 0; int min_dropped = 99;
-	{ size_t jn0 = job_build(job, NULL, 0, s->param, s->nparam); det_check(s->harness, fn, job, jn0); }
+	{ size_t jn0 = job_build(job, NULL, 0, s->param, s->nparam); job[0] |= (uint8_t) (s->unlock_points << 6); det_check(s->harness, fn, job, jn0); }
 	for (;;) {
 		/* submit */
 		while (run_outstanding() < run_parallel()) {
@@ -78,7 +78,7 @@ int e1_explore(e1_spec_t *s) {
 			e1_item_t it = bk[c].v[--bk[c].n];
 			int slot = 0; while (used[slot]) slot++;
 			used[slot] = 1; inflight[slot] = it;
-			size_t jn = job_build(job, it.devs, it.ndevs, s->param, s->nparam);
+			size_t jn = job_build(job, it.devs, it.ndevs, s->param, s->nparam); job[0] |= (uint8_t) (s->unlock_points << 6);
 			run_submit(fn, job, jn, (void *) (intptr_t) slot);
 			out_cost[c]++;
 		}
@@ -88,7 +88,7 @@ int e1_explore(e1_spec_t *s) {
 		int slot = (int) (intptr_t) r.tag; e1_item_t it = inflight[slot]; used[slot] = 0;
 		out_cost[it.cost]--; s->schedules_by_cost[it.cost]++;
 		char human[512]; human_sched(&it, human, sizeof human);
-		size_t jn = job_build(job, it.devs, it.ndevs, s->param, s->nparam);
+		size_t jn = job_build(job, it.devs, it.ndevs, s->param, s->nparam); job[0] |= (uint8_t) (s->unlock_points << 6);
 		char hbuf[700]; snprintf(hbuf, sizeof hbuf, "%s %s", s->label ? s->label : s->harness, human);
 		rep_collect(&r, s->harness, job, jn, hbuf);
 		uint64_t a, b;
